@@ -12,6 +12,7 @@ import Fx.Lemmas.PegTerm
 import Fx.Lemmas.PegFuel
 import Fx.Lemmas.WalkTotal
 import Fx.Lemmas.EmitTotal
+import Fx.Lemmas.ParsePlain
 namespace Fx.C14
 open Fx
 
@@ -172,5 +173,42 @@ theorem C14_ok_err_or_known_panic (txt : String) :
 theorem C14_generate_only_known_panic (a : Ast) (f m : String) (h : generateModule a = .panicAt f m) :
     f = "from.rs" ∧ m = "unexpected fixed length string" :=
   generateModule_g1 a f m h
+
+/-- **C14 on texts: where the constructor panics are *not*.**  For every well-formed text (`Spec.ok`, any layout) whose
+    declarations are *plain* — a decidable predicate on the declarations: every struct field and union arm has an ordinary
+    name (not a spelling `BasicType::from` turns into a built-in type), no struct field has both `*` and an array suffix, every
+    union arm is `type name;`, no enum member is a hex literal `i32::from_str_radix` rejects — `Ast::new` returns `Ok`, or stops
+    at the duplicate-name check of `ConstantIndex::new`.  So the findings K6.a, K6.b, K6.c and K6.f are confined to exactly the
+    declaration forms `Spec.plain` excludes, and K6.d to repeated constant / member names; together with
+    `C14_only_known_panic_sites` (no other site, for *all* texts) the boundary of the property is stated on declarations. -/
+theorem C14_plain_text (s : Parse.Spec) (hok : s.ok = true) (hp : s.plain = true) :
+    Ast.new (String.ofList s.text) = .outOfFuel ∨ (∃ a, Ast.new (String.ofList s.text) = .ok a) ∨
+    Ast.new (String.ofList s.text) = .panicAt "constants.rs" "duplicate case keys" := by
+  unfold Ast.new
+  rw [String.toList_ofList]
+  rcases Parse.spec_parseWith s hok with hpw | hpw
+  · rw [show Peg.parseWith Grammar.xdr "item" s.text = _ from hpw]
+    rcases Parse.plain_front s hok hp with ⟨a, ha⟩ | hd
+    · exact .inr (.inl ⟨a, by simp only [ha]⟩)
+    · exact .inr (.inr (by simp only [hd]))
+  · exact .inl (by rw [show Peg.parseWith Grammar.xdr "item" s.text = _ from hpw])
+
+/-- non-vacuity: a plain specification with a fall-through union, an optional field and a counted array -/
+def exP : Parse.Spec :=
+  let sp : Parse.Layout := ⟨[' '], []⟩
+  let nl := Parse.nl
+  ⟨nl, [
+    (.struct ⟨sp, ['n', 'o', 'd', 'e'], sp, sp,
+      [(⟨.prim .int [' '], nl, none, ['v'], nl, none⟩, sp),
+       (⟨.named ['n', 'o', 'd', 'e'], sp, some nl, ['n', 'e', 'x', 't'], nl, none⟩, sp),
+       (⟨.prim .opaque [' '], nl, none, ['d'], nl, some (.var nl (some (.num ['8'], nl)), nl)⟩, sp)], nl⟩, sp),
+    (.union ⟨sp, ['u'], sp, sp, nl, .prim .int [' '], nl, ['k'], nl, sp, sp,
+      [(.case sp (.num ['1']) nl nl none, nl),
+       (.case sp (.num ['2']) nl sp (some (.field ⟨.named ['n', 'o', 'd', 'e'], sp, none, ['a'], nl, none⟩)), sp),
+       (.dflt nl sp (.void nl), sp)], nl⟩, nl)]⟩
+
+example : exP.ok = true ∧ exP.plain = true := by decide
+example : String.ofList exP.text =
+    "struct node { int v; node *next; opaque d<8>; }; union u switch (int k) { case 1:case 2: node a; default: void; };" := by decide
 
 end Fx.C14
